@@ -6,6 +6,7 @@ import (
 	"encoding/hex"
 	"errors"
 	"fmt"
+	"regexp"
 	"runtime"
 	"sort"
 	"strconv"
@@ -871,10 +872,21 @@ func (s *Sim) Schedule() []string {
 }
 
 // TraceHash is a digest of every decision of the run.
+// uuidRe matches the random identifiers (feed names, checkpoint ids) that differ between two executions of
+// the same schedule and must not enter the hashes.
+var uuidRe = regexp.MustCompile(`[0-9a-f]{8}-[0-9a-f]{4}-[0-9a-f]{4}-[0-9a-f]{4}-[0-9a-f]{12}`)
+
+func stableOp(op string) string {
+	if len(op) < 36 {
+		return op
+	}
+	return uuidRe.ReplaceAllString(op, "UUID")
+}
+
 func (s *Sim) TraceHash() string {
 	h := sha256.New()
 	for _, e := range s.trace {
-		fmt.Fprintf(h, "%s|%s|%s|%s|%s\n", e.Task, e.Alt, e.Kind, e.Op, e.Class)
+		fmt.Fprintf(h, "%s|%s|%s|%s|%s\n", e.Task, e.Alt, e.Kind, stableOp(e.Op), e.Class)
 	}
 	return hex.EncodeToString(h.Sum(nil))[:16]
 }
@@ -887,7 +899,7 @@ func (s *Sim) ShapeHash() string {
 		if e.Kind == "clock" {
 			continue
 		}
-		fmt.Fprintf(h, "%s|%s|%s|%s|%s\n", e.Task, e.Alt, e.Kind, e.Op, e.Class)
+		fmt.Fprintf(h, "%s|%s|%s|%s|%s\n", e.Task, e.Alt, e.Kind, stableOp(e.Op), e.Class)
 	}
 	return hex.EncodeToString(h.Sum(nil))[:16]
 }
